@@ -235,6 +235,19 @@ impl Unifiable {
                     }
                 }
 
+                // This variable is unbound. If the other term is a variable
+                // whose bindings lead back to this one, the two are already
+                // aliased. Binding again would create a cycle.
+                let mut other_end = other;
+                while let Unifiable::LogicVar{id: other_id, name: _} = other_end {
+                    if *other_id == id { return Some(Rc::clone(ss)); }
+                    if *other_id >= length_src { break; }
+                    match &ss[*other_id] {
+                        Some(term) => { other_end = &*term; },
+                        None => { break; },
+                    }
+                }
+
                 let mut length_dst = length_src;
                 if id >= length_dst { length_dst = id + 1; }
 
